@@ -27,7 +27,7 @@ ASSUMPTIONS = ["names are handed to the builder as str; what must come back is t
 
 # staged features (switched on by the commits that bring the model side / the known-findings entry)
 SEND_PATH = True     # C14: follow the datagrams through Zeroconf.async_send (needs the driver command `sendlens`)
-RETRY_CHECK = True   # C01: packets() again on a builder that rejected the message (finding C01-retry)
+RETRY_CHECK = True   # C01: packets() again on a builder that rejected the message (finding D32)
 
 EXC = {"NamePartTooLongException": "NamePartTooLongException", "IndexError": "IndexError", "error": "struct.error", "ValueError": "ValueError"}
 
